@@ -45,6 +45,7 @@ class RefResult:
 class _State:
     def __init__(self):
         self.reads = {}       # key -> present?
+        self.read_log = []    # (key, present?) in order
         self.must = []        # bodies executed on the (so far) surviving path
         self.touched = []     # every body the eager computation executed
         self.log = []         # body / cb / effect events in eager order (surviving path)
@@ -174,6 +175,7 @@ class Ref:
     def get_ref(self, key, o):
         v = dotted_get(o, key)
         self.st.reads[key] = v is not ABSENT
+        self.st.read_log.append((key, v is not ABSENT))
         if v is ABSENT:
             raise RFail({("missing", key)})
         return v
@@ -208,6 +210,7 @@ class Ref:
         key = n["key"]
         raw = dotted_get(o, key)
         self.st.reads[key] = raw is not ABSENT
+        self.st.read_log.append((key, raw is not ABSENT))
         if raw is not ABSENT:
             if raw is None or raw is False or raw == 0 or raw == "" or raw == [] or raw == {}:
                 self.st.labels.add("falsy-present")
@@ -330,12 +333,17 @@ class Ref:
     def e_coalesce(self, n, o):
         fails = set()
         for i, m in enumerate(n["members"]):
+            mark = len(self.st.read_log)
             ok, v = self.attempt(lambda: self.ev(m, o))
             if ok:
                 if i > 0:
                     self.st.labels.add("coalesce-fallthrough")
                 return v
             fails |= v.fails
+            if i < len(n["members"]) - 1 and (any(f[0] != "missing" for f in v.fails)
+                                              or any(p for _, p in self.st.read_log[mark:])):
+                # an earlier member failed for a reason that depends on a *present* value (known finding K6)
+                self.st.labels.add("coalesce-absorbed-value-failure")
         raise RFail(fails)
 
     def items(self, n, o):
